@@ -14,7 +14,7 @@ def run(tier):
     q = tier == "quick"
     to = 900 if q else 3600
     conds = []
-    for spec in ("list", "nested", "prefix", "open", "rec", "uni"):
+    for spec in (("list", "nested", "prefix", "open", "rec") if q else ("list", "nested", "prefix", "open", "rec", "uni")):
         conds.append(Cond("h_fuzz.py", "derivation", to, twin="reach" if spec in ("list", "nested", "rec") else None, path_timeout=to / 2,
                           env={"H_SPEC": spec, "H_BUDGETS": "0,2,5,12" if q else "0,1,2,3,5,8,12,30", "H_CHOICES": "8" if q else "14",
                                "H_RSIZE": "7"}))
@@ -22,9 +22,11 @@ def run(tier):
             ("eq", "mutate", 8)]
     if not q:
         plan += [("rep1", "mutate", 10), ("rep1", "crossover", 11), ("eq", "crossover", 10), ("rep2", "crossover", 10), ("rep2", "mutate", 12), ("range", "crossover", 10), ("range", "mutate", 10)]
+    first_draws = {"rep2": 4, "rep1": 3, "range": 2}  # number of values of the first draw (the count symbol's alternatives)
     for spec, mode, nch in plan:
-        conds.append(Cond("h_repair.py", "stays_in_grammar", to, twin="reach" if mode == "repair2" else None, path_timeout=to / 2,
-                          env={"H_SPEC": spec, "H_MODE": mode, "H_CHOICES": str(nch)}))
+        for c0 in range(first_draws.get(spec, 1)) if spec in first_draws else [-1]:
+            conds.append(Cond("h_repair.py", "stays_in_grammar", to, twin="reach" if (mode == "repair2" and c0 in (-1, 1)) else None, path_timeout=to / 2,
+                              env={"H_SPEC": spec, "H_MODE": mode, "H_CHOICES": str(nch), "H_C0": str(c0)}))
     run.run_conditions(conds, conformance_harnesses=[("h_fuzz.py", {"H_SPEC": s}) for s in ("list", "nested", "rec")]
                        + [("h_repair.py", {"H_SPEC": "rep2", "H_CHOICES": "12"})])
     run.encoded = ["Grammar.fuzz/prime", "Alternative/Concatenation/Repetition/Plus/Star/Option/NonTerminalNode/TerminalNode.fuzz",
